@@ -4,6 +4,7 @@ import (
 	"fmt"
 	"go/ast"
 	"path/filepath"
+	"strings"
 )
 
 // C01: the catch-all hosts `newVHostTrie` puts into fallbackHosts, in order.
@@ -38,5 +39,23 @@ func init() {
 		b := o.File("VHost")
 		fmt.Fprintf(b, "/-- `fallbackHosts` literal in caskethttp/httpserver/vhosttrie.go:newVHostTrie, in order -/\ndef vhostFallbackHosts : List String := %s\n", LeanStringList(hosts))
 		return nil
+	})
+}
+
+// The full-stack stream of C01 reuses the address model of C15 (lean/Casket/Model/AutoHTTPSAddr.lean),
+// which imports Casket.Generated.AutoHTTPS: regenerate that file with C15's own extractor when only C01
+// is checked.  It is flushed separately so that a run over all ids does not write the file twice.
+func init() {
+	register("C01", func(repo string, o *Out) error {
+		for _, e := range extractors {
+			if e.ids == "C15" {
+				tmp := &Out{dir: o.dir, files: map[string]*strings.Builder{}}
+				if err := e.fn(repo, tmp); err != nil {
+					return err
+				}
+				return tmp.Flush()
+			}
+		}
+		return fmt.Errorf("the C15 fact extractor (Generated/AutoHTTPS.lean) is not registered")
 	})
 }
